@@ -4,6 +4,7 @@ import (
 	"flag"
 	"fmt"
 	"os"
+	"os/exec"
 	"strings"
 	"time"
 
@@ -130,6 +131,101 @@ func runCheck(prop, tier, repo, tags string) (code int) {
 	r := engine.NewRun(prop, tier, p)
 	c.Run(r)
 	r.NoEvidence = noEvidence
-	s := r.Finish(verifDir(), nil)
+	extra := map[string]any{}
+	tagFail := false
+	if tier == "thorough" && os.Getenv("VERIFSA_CHILD") == "" && !noEvidence {
+		// (a) the same obligations under the build tags that change core/util's file set
+		self, _ := os.Executable()
+		var cfgs []map[string]any
+		for _, tg := range []string{"integration_tests", "dev"} {
+			cmd := exec.Command(self, "check", "-property", prop, "-tier", "quick", "-no-evidence", "-repo", repo, "-tags", tg)
+			cmd.Env = append(os.Environ(), "VERIFSA_CHILD=1")
+			out, err := cmd.CombinedOutput()
+			code := 0
+			if ee, ok := err.(*exec.ExitError); ok {
+				code = ee.ExitCode()
+			} else if err != nil {
+				code = 2
+			}
+			last := ""
+			for _, l := range strings.Split(strings.TrimSpace(string(out)), "\n") {
+				if strings.HasPrefix(l, "verifsa ") {
+					last = l
+				}
+			}
+			cfgs = append(cfgs, map[string]any{"tags": "verif," + tg, "exit": code, "summary": last})
+			if code != 0 {
+				tagFail = true
+				fmt.Printf("build configuration tags=%s:\n%s\n", tg, string(out))
+			}
+		}
+		extra["build_configs"] = cfgs
+		// (b) sensitivity sweep
+		funcs := r.FuncList
+		nfiles := map[string]bool{}
+		for _, f := range funcs {
+			if f.Syntax() != nil {
+				nfiles[p.Fset.Position(f.Syntax().Pos()).Filename] = true
+			}
+		}
+		per := 60
+		if len(nfiles) > 0 && 420/len(nfiles) > per {
+			per = 420 / len(nfiles)
+		}
+		sw := runSweep(prop, repo, funcs, p, per)
+		extra["sensitivity"] = sw
+		fmt.Printf("sensitivity sweep: %d mutants, %d type-check, %d reported by this check, %d not reported (%.0fs)\n", sw.Mutants, sw.Compiled, sw.Killed, len(sw.Unkilled), sw.Seconds)
+		// (c) cross-reference runs of generic tools (context only)
+		extra["cross_reference"] = crossRef(repo, c.Pkgs)
+	}
+	s := r.Finish(verifDir(), extra)
+	if tagFail && s.Exit == 0 {
+		fmt.Printf("VIOLATION property=%s replay=%s\n", prop, "(see the build-configuration output above)")
+		return 1
+	}
 	return s.Exit
+}
+
+// crossRef runs the generic tools on the anchor packages that build here and
+// records how much they say (context only; never gating).
+func crossRef(repo string, pkgs []string) map[string]any {
+	out := map[string]any{}
+	var targets []string
+	for _, p := range pkgs {
+		if p == "core/util" {
+			continue // cannot be loaded by the generic tools (cgo dependency does not compile)
+		}
+		targets = append(targets, "./"+p+"/...")
+	}
+	if len(targets) == 0 {
+		out["note"] = "anchor package core/util cannot be loaded by go vet / staticcheck / errcheck in this sandbox"
+		return out
+	}
+	run := func(name string, args ...string) {
+		cmd := exec.Command(name, append(args, targets...)...)
+		cmd.Dir = repo
+		cmd.Env = append(os.Environ(), "GOFLAGS=-mod=mod", "GOPROXY=off", "GOSUMDB=off", "GOTOOLCHAIN=local", "GOWORK=off")
+		done := make(chan []byte, 1)
+		go func() { b, _ := cmd.CombinedOutput(); done <- b }()
+		select {
+		case b := <-done:
+			lines := strings.Split(strings.TrimSpace(string(b)), "\n")
+			if len(lines) == 1 && lines[0] == "" {
+				lines = nil
+			}
+			if len(lines) > 8 {
+				lines = append(lines[:8], fmt.Sprintf("... %d more", len(lines)-8))
+			}
+			out[name] = map[string]any{"lines": lines}
+		case <-time.After(120 * time.Second):
+			if cmd.Process != nil {
+				cmd.Process.Kill()
+			}
+			out[name] = "timeout"
+		}
+	}
+	run("go", "vet")
+	run("staticcheck")
+	run("errcheck")
+	return out
 }
